@@ -1,5 +1,6 @@
 """C02 -- log_z, n_eff, eta and weights are exactly the estimators of the stored samples."""
-from ..sampler_rules import rule_L1_sampler, rule_L5, rule_L1d_transition, rule_U1
+from ..sampler_rules import (rule_L1_sampler, rule_L5, rule_L1d_transition, rule_U1,
+                             rule_A8)
 from ..pathrules import rule_T3, rule_T8i
 from ..agree import rule_A2_A6, rule_Q3
 from ..lockstep import rule_derived
@@ -18,6 +19,7 @@ def run(ctx):
     rule_L1d_transition(ctx)
     rule_T3(ctx)
     rule_U1(ctx)
+    rule_A8(ctx)
     rule_T8i(ctx)
     rule_Q3(ctx)
     rule_A2_A6(ctx)
